@@ -47,12 +47,12 @@ def render(case, sub=None):
     raise ValueError(ctx)
 
 
-def check_case(case):
+def check_case(case, parser=None):
     from pycparser import c_parser
     out = []
     for label, src, get in render(case):
         try:
-            ast = c_parser.CParser().parse(src, "d.c")
+            ast = (parser or c_parser.CParser()).parse(src, "d.c")
         except Exception as e:
             import re
             msg = re.sub(r"^d\.c(:\d+:\d+)?: ", "", str(e))
@@ -76,13 +76,20 @@ def check_case(case):
 
 
 def _work(chunk):
+    from pycparser import c_parser
     bad = []
     n = 0
-    for c in chunk:
+    shared = c_parser.CParser()
+    for i, c in enumerate(chunk):
         f = check_case(c)
         n += 4 if c["ctx"] == "typename" else 1
         for label, sig, src in f:
             bad.append((c, sig, src))
+        if not f and i % 3 == 0:
+            # and on a parser that has parsed other declarations before (a third of the cases)
+            for label, sig, src in check_case(c, shared):
+                bad.append((c, "on a reused parser: " + sig, src))
+            n += 4 if c["ctx"] == "typename" else 1
     return len(chunk), n, bad
 
 
@@ -185,6 +192,7 @@ def run(tier):
     for c in rnd.sample(allc, 3):
         ctx.sample(dict(context=c["ctx"], declaration=" ".join(c["toks"]), expected=c["nodes"][-1]["type"]))
     long_units(ctx, tier, rnd, allc)
+    long_lists(ctx, tier, rnd)
     monitor(ctx, tier, rnd)
     ctx.cov["exhaustive"] = True
     ctx.assumptions += ["Chain in spec/CDecl.tla is C99 6.7.5.1-3 verbatim; TypeDecl.align / Typename.align are outside the projection"]
@@ -220,6 +228,22 @@ def long_units(ctx, tier, rnd, cases):
             ctx.fail("long unit: " + sig, dict(kind="unit", text=text))
     ctx.count(len(units), nontrivial=len(units), traces=n)
     ctx.note("long_units", dict(units=len(units), declarations=n))
+
+
+def long_lists(ctx, tier, rnd):
+    """The i-th parameter / member / declarator / enumerator / external declaration of a long list gets the tree
+    the same item gets in a list of one (item spellings: the flat families of Families.tla, harness/checks/c16.LISTS)."""
+    from .. import longunit
+    from .c16 import LISTS
+    kinds = ["params_proto", "members", "declarators", "enumerators", "externals"]
+    jobs = longunit.list_jobs(kinds, {k: LISTS[k][2] for k in kinds}, rnd, 6 if tier == "quick" else 60)
+    n = 0
+    for cnt, bad in pmap(longunit.check_list, jobs, chunk=4):
+        n += cnt
+        for sig, text in bad:
+            ctx.fail("long list: " + sig, dict(kind="unit", text=text))
+    ctx.count(len(jobs), nontrivial=len(jobs), traces=n)
+    ctx.note("long_lists", dict(lists=len(jobs), items=n))
 
 
 def monitor(ctx, tier, rnd):
